@@ -615,7 +615,8 @@ def gen_request(r, scratch, idx, kind=None):
             'T9(a, FlagValue("no_such_flag")) :- D(a:);\n'
             'T5(x: r.%s, y: s) :- T1(r:), T3(k: x0, s:), x0 == r.%s;\n' % (f[0], f[0]) +
             'T6(t: {%s: a, %s: {%s: b}}) :- D(a:, b:);\n' % (f[6], f[7], f[0]))
-    preds = r.sample(['T1', 'T2', 'T3', 'T4', 'T5', 'T6', 'T7', 'T8', 'T9', 'T9'], 5)
+    preds = ['T8', 'T9'] + r.sample(['T1', 'T2', 'T3', 'T4', 'T5', 'T6', 'T7'], 3)
+    r.shuffle(preds)
   elif kind == 'functor':
     n = r.randint(1, 4)
     lines = ['@Engine("%s");' % r.choice(ENGINES), 'A(1); A(2); B(3); B(5);',
@@ -843,6 +844,9 @@ def gen_history(r, pool, max_ops=None):
       a, b = r.sample(preds, 2)
       if r.random() < 0.3:
         b = a          # the very same predicate a second time on the same LogicaProgram
+      if 'T9' in preds and pool[pi]['kind'] == 'typed' and r.random() < 0.5:
+        # the first request fails late (an unspecified flag), the caller goes on with another one
+        a, b = 'T9', r.choice([x for x in preds if x != 'T9'])
       ops.append(['sql_again', pi, a, b])
     elif k == 'compile_reuse' and compiled and r.random() < 0.8:
       pj = r.choice(compiled)
@@ -862,6 +866,11 @@ def gen_history(r, pool, max_ops=None):
     b = r.randrange(a + 1, len(ops) + 1)
     pj = r.choice(dep)
     ops.insert(b, ['compile', pj, r.choice(pool[pj]['preds'])])
+  # a request that fails late, then another predicate on the same program object
+  typed = [i for i, q in enumerate(pool) if q['kind'] == 'typed' and 'T9' in q['preds']]
+  if typed and r.random() < 0.6:
+    pi = r.choice(typed)
+    ops.insert(r.randrange(len(ops) + 1), ['sql_again', pi, 'T9', r.choice(['T8', 'T8'] + [x for x in pool[pi]['preds'] if x != 'T9'])])
   # likewise for two programs that are compiled with one and the same flags dict
   groups = {}
   for i, q in enumerate(pool):
